@@ -185,6 +185,81 @@ fn modes() -> impl Strategy<Value = Mode> {
     ]
 }
 
+// ---------------------------------------------------------------- interleaved output cloned mid-frame
+
+/// interleaved-sample output is a value: a clone taken after k samples (k not necessarily a multiple
+/// of the channel count) must continue with exactly the samples that were still owed
+#[derive(Clone, Debug, Serialize, Deserialize)]
+pub struct CloneCase {
+    pub ft: FT,
+    pub len: u64,
+    pub split: u64,
+    pub iterator_form: bool,
+}
+
+fn clone_typed<F: TF + Clone>(c: &CloneCase, st: &mut Stats) -> CheckResult
+where
+    F::Signed: std::fmt::Debug + 'static,
+    F::Float: std::fmt::Debug + 'static,
+    F::Channels: Clone,
+{
+    let chans = F::CHANNELS as u64;
+    let frames: Vec<F> = (0..c.len).map(F::leaf).collect();
+    let all: Vec<F::Sample> = frames.iter().flat_map(|f| f.channels()).collect();
+    let k = (c.split.min(all.len() as u64)) as usize;
+    st.nt(chans > 1 && k as u64 % chans != 0);
+    st.class_if(chans > 1 && k as u64 % chans != 0, "interleaved output cloned in the middle of a frame");
+    let tail = &all[k..];
+    if c.iterator_form {
+        let mut it = signal::from_iter(frames.clone()).into_interleaved_samples().into_iter();
+        for j in 0..k {
+            ensure!(it.next() == Some(all[j]), "sample {} differs before the clone", j);
+        }
+        let mut cl = it.clone();
+        let a: Vec<F::Sample> = it.by_ref().take(tail.len() + 4).collect();
+        let b: Vec<F::Sample> = cl.by_ref().take(tail.len() + 4).collect();
+        ensure!(a == tail, "original interleaved iterator after {} samples yields {} more, expected {}", k, a.len(), tail.len());
+        ensure!(b == tail, "a clone taken after {} of {} samples ({} channels) yields {} samples, expected the {} samples still owed", k, all.len(), chans, b.len(), tail.len());
+        ensure!(it.next().is_none() && cl.next().is_none(), "interleaved iterator yields a sample after None");
+    } else {
+        let mut is = signal::from_iter(frames.clone()).into_interleaved_samples();
+        for j in 0..k {
+            ensure!(is.next_sample() == Some(all[j]), "sample {} differs before the clone", j);
+        }
+        let mut cl = is.clone();
+        let mut b = Vec::new();
+        while let Some(s) = cl.next_sample() {
+            b.push(s);
+            if b.len() > tail.len() + 4 {
+                break;
+            }
+        }
+        ensure!(b == tail, "a clone taken after {} of {} samples ({} channels) yields {} samples, expected the {} still owed", k, all.len(), chans, b.len(), tail.len());
+        let mut a = Vec::new();
+        while let Some(s) = is.next_sample() {
+            a.push(s);
+            if a.len() > tail.len() + 4 {
+                break;
+            }
+        }
+        ensure!(a == tail, "original after the clone yields {} samples, expected {}", a.len(), tail.len());
+    }
+    Ok(())
+}
+
+pub fn check_clone(c: &CloneCase, st: &mut Stats) -> CheckResult {
+    match c.ft {
+        FT::F32 => clone_typed::<f32>(c, st),
+        FT::F32x2 => clone_typed::<[f32; 2]>(c, st),
+        FT::F64x4 => clone_typed::<[f64; 4]>(c, st),
+        FT::I16x2 => clone_typed::<[i16; 2]>(c, st),
+        FT::U8x3 => clone_typed::<[u8; 3]>(c, st),
+        FT::I32x1 => clone_typed::<[i32; 1]>(c, st),
+        FT::U16x2 => clone_typed::<[u16; 2]>(c, st),
+        FT::I24 => clone_typed::<dasp_sample::I24>(c, st),
+    }
+}
+
 pub fn run(ctx: &mut Ctx) {
     ctx.set_rule(
         "cases are (frame type with 1..4 channels, adaptor tree over finite sources, consumption mode, extra pulls after exhaustion); sources are signal::from_iter, \
@@ -274,6 +349,20 @@ pub fn run(ctx: &mut Ctx) {
     }
     let n = cases.len() as u64;
     ctx.par_enumerate("catalogue-two-sources", true, n, move |i| cases[i as usize].clone(), check);
+
+    // interleaved output cloned after every possible number of samples
+    ctx.require_class("interleaved output cloned in the middle of a frame");
+    let mut cases = Vec::new();
+    for &ft in &FTS {
+        for len in 0..=5u64 {
+            for split in 0..=(len * 4 + 1) {
+                for iterator_form in [false, true] {
+                    cases.push(CloneCase { ft, len, split, iterator_form });
+                }
+            }
+        }
+    }
+    ctx.enumerate("interleaved-clone", true, cases.into_iter(), check_clone);
 
     let depth = ctx.pick(4u32, 6);
     let strat = (0usize..8, tree_strategy(depth, false), modes(), prop_oneof![2 => Just(0u64), 1 => 1u64..6]).prop_map(|(f, mut tree, mode, extra)| {
